@@ -277,6 +277,9 @@ def run(tier, seed):
         rep.extra["cpp_part"] = "included"
     except ImportError:
         rep.extra["cpp_part"] = "not built yet"
+    from . import cfgrb
+
+    tasks += [(cfgrb.task, (PID, *c, tier, seed)) for c in cfgrb.combos(tier)]
     for d in pmap(_dispatch, tasks):
         rep.merge(d)
     rep.bounds = {"K_full_steps": K, "covered_region": f"|t1 - t0| < {K + 1} * max_dt (leaves beyond are cut and counted)", "max_dt": "Python: symbolic in [1e-9, 10]; C++: enumerated constants", "times": "symbolic in [-1000, 1000]", "histories": "held time is symbolic: one tick from an arbitrary held time covers any sequence of ticks"}
@@ -292,6 +295,10 @@ def run(tier, seed):
 def replay(path):
     with open(path) as f:
         r = json.load(f)
+    if r.get("info", {}).get("kind") == "cfgrb":
+        from . import cfgrb
+
+        return cfgrb.replay(PID, r["info"])
     if r["info"]["kind"] == "py-two-ticks":
         from formak import runtime
 
